@@ -91,7 +91,8 @@ def gen_behav(rng, kind, k, ns_is_star=False):
             b['outcome'] = ('raise', rng.choice(['ValueError', 'KeyError', 'TypeError', 'OtherError']))
         else:
             b['outcome'] = ('ret', rng.choice([None, 1, 'x', [1, 2], {'a': b'\x01'}, (1, 'two'), b'bin', True, False, (),
-                                               values.gen_json(rng, 2)]))
+                                               values.gen_json(rng, 2), (b'bin', 'meta'), ('ok', {'blob': b'y'}),
+                                               (1, [b'a', b'b'], None)]))
     if rng.random() < k.actions and not ns_is_star:
         for _ in range(rng.randrange(1, 3)):
             a = rng.choice(['enter', 'leave', 'emit_self', 'emit_room', 'save', 'get'])
